@@ -204,6 +204,17 @@ def render(t, names, sp):
     raise ValueError(t)
 
 
+def _walk_ann(t):
+    yield t
+    for x in t[1:]:
+        if isinstance(x, list) and x and isinstance(x[0], str):
+            yield from _walk_ann(x)
+        elif isinstance(x, list):
+            for y in x:
+                if isinstance(y, list):
+                    yield from _walk_ann(y)
+
+
 def class_params(case, i):
     return list(case["classes"][i]["params"])
 
@@ -213,7 +224,7 @@ def gen_source(case, uid):
     names = {"leaf": f"Leaf{uid}", "cls": [f"M{uid}_{i}" for i in range(len(case["classes"]))]}
     lines = [
         "from dataclasses import dataclass",
-        "from typing import Any, Dict, Generic, List, NamedTuple, Optional, Tuple, TypedDict, TypeVar, "
+        "from typing import Annotated, Any, Dict, Generic, List, NamedTuple, Optional, Tuple, TypedDict, TypeVar, "
         "TypeVarTuple, Union, Unpack",
         "import attrs",
     ]
@@ -262,7 +273,9 @@ def gen_source(case, uid):
             generic_src = "Generic[" + ", ".join(
                 (f"*{p}" if sp == "builtin" else f"Unpack[{p}]") if p == TVT else p for p in params) + "]"
         lines += header(names["cls"][i], bases_src, generic_src, root=not c["bases"])
-        body = [f"    {f['name']}: {render(f['ann'], names, sp)}" for f in c["fields"]]
+        # "wrap": a transparent Annotated[...] around the whole annotation (also directly around a bare type variable)
+        body = [f"    {f['name']}: " + (f"Annotated[{render(f['ann'], names, sp)}, 'meta']" if f.get("wrap") == "annotated"
+                                        else render(f['ann'], names, sp)) for f in c["fields"]]
         lines += body or ["    pass"]
         lines.append("")
     return "\n".join(lines), names
@@ -1358,7 +1371,10 @@ def st_case(draw):  # noqa: C901, PLR0912, PLR0915
                 # an inherited member re-annotated with a *bare generic class* is lost again in a ground
                 # subclass (known finding, stale __orig_bases__) -> wrap it, the override itself stays
                 ann = ["opt", ann]
-            fields.append({"name": name, "ann": ann})
+            fld = {"name": name, "ann": ann}
+            if not any(t == ["unpack", TVT] for t in _walk_ann(ann)) and chance(draw, 1, 5):
+                fld["wrap"] = "annotated"
+            fields.append(fld)
         classes.append({"params": params, "bases": bases, "fields": fields, "explicit": explicit})
         anc.append(my_anc)
         names_of.append(inherited | used)
